@@ -29,5 +29,6 @@ def put(s,tag,body):
     if a not in s: raise SystemExit('marker missing: '+tag)
     return s[:s.index(a)+len(a)]+'\n'+body+'\n'+s[s.index(b):]
 s=put(s,'FINDINGS',findings); s=put(s,'SEEDS',seeds)
+if os.path.exists('/verif/tools/thorough_table.md'): s=put(s,'THOROUGH',open('/verif/tools/thorough_table.md').read().strip())
 open(D,'w').write(s)
 print('tables written:',sum(1 for f in kf if f['status']=='known'),'known,',sum(1 for f in kf if f['status']=='fixed'),'fixed,',len(rows)-1,'seeds')
